@@ -281,6 +281,9 @@ impl<'a> R<'a> {
         if let Some(s) = f64rw::rw_f64(self, e) {
             return Some(s);
         }
+        if let Some(s) = chain::rw_for(self, e) {
+            return Some(s);
+        }
         if let Some(s) = chain::rw_chain(self, e) {
             return Some(s);
         }
@@ -336,6 +339,15 @@ impl<'r, 'a, 'ast> Visit<'ast> for Coll<'r, 'a> {
     fn visit_stmt(&mut self, st: &'ast Stmt) {
         if let Stmt::Macro(sm) = st {
             let name = sm.mac.path.segments.last().map(|s| s.ident.to_string()).unwrap_or_default();
+            if name == "assert_eq" {
+                if let Ok(args) = sm.mac.parse_body_with(Punctuated::<Expr, Token![,]>::parse_terminated) {
+                    if args.len() >= 2 {
+                        self.r.note("R12 `assert_eq!(a, b)` -> qx_assert(a == b)");
+                        self.edits.push((range(st.span()), format!("qx_assert({} == {});", self.r.expr(&args[0]), self.r.expr(&args[1]))));
+                        return;
+                    }
+                }
+            }
             if name == "assert" {
                 if let Ok(args) = sm.mac.parse_body_with(Punctuated::<Expr, Token![,]>::parse_terminated) {
                     if let Some(c) = args.first() {
@@ -676,7 +688,8 @@ fn render_fn(r: &R, fr: FnRef, contract: &str, as_name: Option<&str>) -> String 
         if let syn::ReturnType::Type(_, ty) = &sig.output {
             let res = r.opts.get("ret").unwrap_or("r");
             c.edits.retain(|(rg, _)| !(rg.start >= range(ty.span()).start && rg.end <= range(ty.span()).end));
-            c.edits.push((range(ty.span()), format!("({}: {})", res, r.ty(ty))));
+            let tytxt = r.opts.get("ret_type").map(|s| s.to_string()).unwrap_or_else(|| r.ty(ty));
+            c.edits.push((range(ty.span()), format!("({}: {})", res, tytxt)));
         }
         apply_edits(r.src, range(sig.span()), c.edits)
     };
